@@ -30,12 +30,14 @@ type ctlEvent struct {
 }
 
 type lthread struct {
-	id      string
-	fn      func()
-	resume  chan struct{}
-	started bool
-	done    bool
-	gates   []string
+	id       string
+	fn       func()
+	resume   chan struct{}
+	started  bool
+	done     bool
+	gates    []string
+	held     int    // mutexes this thread holds (counted at the gates around acquire / release)
+	panicked string // the thread's function panicked (a crash of request handling / of a method: C17)
 }
 
 type controller struct {
@@ -48,9 +50,20 @@ func (c *controller) gate(kind string) {
 	if t == nil {
 		return // free-running code outside a controlled run
 	}
+	switch kind {
+	case "Atomic:pre":
+		if t.held > 0 {
+			return // never park a thread inside a critical section: that would be the instrumentation's deadlock, not the code's
+		}
+	case "Unlock:post", "RUnlock:post":
+		t.held--
+	}
 	t.gates = append(t.gates, kind)
 	c.yield <- ctlEvent{t, kind}
 	<-t.resume
+	if kind == "Lock:pre" || kind == "RLock:pre" {
+		t.held++ // the acquire follows immediately; no other thread runs until the next gate
+	}
 }
 
 // step runs t until its next gate or its completion and returns what it reached.
@@ -60,7 +73,14 @@ func (c *controller) step(t *lthread) (string, bool) {
 		t.started = true
 		go func() {
 			<-t.resume
-			t.fn()
+			func() {
+				defer func() {
+					if p := recover(); p != nil {
+						t.panicked = fmt.Sprint(p)
+					}
+				}()
+				t.fn()
+			}()
 			c.yield <- ctlEvent{t, "done"}
 		}()
 	}
@@ -287,13 +307,23 @@ func (e *c07env) runSchedule(t *tracer, sc scenario, prefix []int, schedID int, 
 		kind, ok := ctl.step(th)
 		if !ok {
 			res.blocked = true
-			t.emit(map[string]any{"ev": "Blocked", "t": th.id})
+			all := map[string]string{}
+			for _, x := range threads {
+				all[x.id] = fmt.Sprintf("held=%d gates=%s", x.held, strings.Join(x.gates, ","))
+			}
+			t.emit(map[string]any{"ev": "Blocked", "t": th.id, "threads": all})
 			return res
 		}
 		if kind == "Unlock:post" && ti.kind != "request" {
 			// a write section of this writer has just completed
 			t.emit(map[string]any{"ev": "Commit", "t": th.id, "op": ti.op.String()})
 			committed[th.id] = true
+		}
+		if kind == "done" && th.panicked != "" {
+			t.emit(map[string]any{"ev": "Panic", "t": th.id, "kind": ti.kind, "req": ti.req, "op": ti.op.String(), "what": th.panicked})
+			// the thread may have died holding a lock: this execution ends here
+			res.blocked = true
+			return res
 		}
 		if kind == "done" {
 			if ti.kind == "reconf" || ti.kind == "setdebug" {
